@@ -73,6 +73,13 @@ def std_full_digest(ns):
     d["uninformed.samples"] = _arr(getattr(up, "samples", None))
     d["uninformed.indices"] = _arr(list(getattr(up, "indices", []) or []))
     d["uninformed.populated"] = bool(up.populated)
+    d["training_time"] = repr(ns.training_time)
+    d["flow.population_time"] = repr(getattr(fp, "population_time", None))
+    d["uninformed.population_time"] = repr(getattr(up, "population_time", None))
+    d["likelihood_evaluation_time"] = repr(ns.model.likelihood_evaluation_time)
+    d["final_p_value"] = repr(ns.final_p_value)
+    d["tolerance"] = repr(ns.tolerance)
+    d["max_iteration"] = repr(ns.max_iteration)
     d["completed_training"] = ns.completed_training
     d["training_iterations"] = _arr(list(ns.history["training_iterations"])) if ns.history else None
     flow = getattr(fp, "flow", None)
@@ -90,6 +97,12 @@ def ins_full_digest(ns):
         if o is None:
             continue
         d[f"{name}.state.logZ"] = repr(float(o.state.logZ)) if o.state._weights is not None else None
+    d["training_time"] = repr(ns.training_time)
+    d["draw_samples_time"] = repr(ns.draw_samples_time)
+    d["add_and_update_samples_time"] = repr(ns.add_and_update_samples_time)
+    d["likelihood_evaluation_time"] = repr(ns.model.likelihood_evaluation_time)
+    d["min_samples"] = repr((ns.min_samples, ns.min_remove, ns.max_samples, ns.nlive, ns.n_initial))
+    d["tolerance"] = repr((ns.tolerance, ns.stopping_criterion, ns._stop_any, ns.min_iteration, ns.max_iteration))
     d["n_models"] = ns.proposal.flow.n_models
     d["flow.weights"] = _arr([{k: v.cpu().numpy() for k, v in m.state_dict().items()} for m in ns.proposal.flow.models])
     d["evaluations"] = ns.model.likelihood_evaluations
